@@ -136,9 +136,12 @@ class Sim(object):
         e = len(self.dev) - 1 if low else None
         act = arm["act"]
         tgt = None
-        if act == "detach_self":
+        if act in ("detach_self", "reattach_self"):
             tgt = obs
-        elif act in ("detach_other", "attach_dup"):
+        elif act == "flicker_new":
+            tgt = Obs(self, len(self.observers))
+            self.observers.append(tgt)
+        elif act in ("detach_other", "attach_dup", "reattach_other"):
             others = [o for o in self.observers if o is not obs]
             tgt = others[arm["target"] % len(others)] if others else obs
         elif act == "attach_new":
@@ -159,6 +162,19 @@ class Sim(object):
         self.trace.ev("churn_inside", obs.oid, act, tgt.oid, msg_type, e)
         self.churn_log.append([obs.oid, act, tgt.oid, msg_type, e])
         if act.startswith("detach"):
+            self.seq().detach(tgt)
+            self.model_detach(tgt, e)
+        elif act.startswith("reattach"):
+            # two opposite membership changes for one listener inside one delivery
+            self.probes["opposite_changes_in_one_delivery"] += 1
+            self.seq().detach(tgt)
+            self.model_detach(tgt, e)
+            self.seq().attach(tgt)
+            self.model_attach(tgt, e)
+        elif act == "flicker_new":
+            self.probes["opposite_changes_in_one_delivery"] += 1
+            self.seq().attach(tgt)
+            self.model_attach(tgt, e)
             self.seq().detach(tgt)
             self.model_detach(tgt, e)
         else:
@@ -950,7 +966,7 @@ def generate(rng, prop, tier):
                     "op": "arm",
                     "obs": rng.randrange(nobs),
                     "k": rng.choice([1, 1, 2, 3, 4, 5, 6, 8, 10, 13, 17, 25, 40]),
-                    "act": rng.choice(["detach_self", "detach_self", "detach_other", "attach_new", "attach_dup"]),
+                    "act": rng.choice(["detach_self", "detach_self", "detach_other", "attach_new", "attach_dup", "reattach_self", "reattach_other", "flicker_new"]),
                     "target": rng.randrange(4),
                 }
             )
@@ -1145,6 +1161,7 @@ def describe(prop):
             "churn_during_instrument_announcement",
             "churn_on_high_level_message",
             "churn_by_first_of_several",
+            "opposite_changes_in_one_delivery",
             "cc_boundary_-1",
             "cc_boundary_0",
             "cc_boundary_128",
